@@ -47,4 +47,10 @@ def appGuard (label : String) (x : AppCtx) : Bool :=
   | some p => p.2 x
   | none => false
 
+/-- guard of a step of the generated rounding table (false if the step does not exist) -/
+def roundGuard (label : String) (x : RoundCtx) : Bool :=
+  match Gen.StatusFlags.roundTable.find? (fun p => p.1 == label) with
+  | some p => p.2 x
+  | none => false
+
 end MpVerif.C10
